@@ -267,6 +267,43 @@ func c07Case(w *core.Worker, i int) {
 			sortedOut([]string{"order-after:distinct+analytic", "order-after:analytic+limit", "order-after:group-by", "order-after:distinct+subquery"}[qi], q, v, lim)
 		}
 	}
+	// Q3: a cut query used as a table by another cut query: each level cuts what it receives
+	for k := 0; k < 2 && n > 0; k++ {
+		m := []int{1, 4, n / 2, n - 1, 0}[r.Intn(5)]
+		if m > n {
+			m = n
+		}
+		if m < 0 {
+			m = 0
+		}
+		pc := []string{"50", "33.3", "10", "75", "100"}[r.Intn(5)]
+		pf, _ := strconv.ParseFloat(pc, 64)
+		inner := ref[m:]
+		keep := int(math.Ceil(float64(len(inner)) * pf / 100))
+		if keep > len(inner) {
+			keep = len(inner)
+		}
+		want := inner[:keep]
+		var q string
+		if k == 0 {
+			q = fmt.Sprintf("SELECT id FROM (SELECT * FROM t ORDER BY %s, id OFFSET %d) s ORDER BY %s, id LIMIT %s PERCENT", orderBy, m, orderBy, pc)
+		} else {
+			inner2 := ref[m:]
+			lim := []int{1, 3, n}[r.Intn(3)]
+			if lim > len(inner2) {
+				lim = len(inner2)
+			}
+			want = inner2[:lim]
+			keep2 := int(math.Ceil(float64(len(want)) * pf / 100))
+			want = want[:keep2]
+			q = fmt.Sprintf("SELECT id FROM (SELECT * FROM t ORDER BY %s, id LIMIT %d OFFSET %d) s ORDER BY %s, id LIMIT %s PERCENT", orderBy, lim, m, orderBy, pc)
+		}
+		if v := run(q); v != nil {
+			if got := idsOf(v); !eqInts(got, want) {
+				viol("cut:nested", q, "the outer query does not cut exactly the rows the inner query returns", got, want)
+			}
+		}
+	}
 	// cuts
 	type cut struct {
 		lim     string // "" none
@@ -401,7 +438,7 @@ func c07Case(w *core.Worker, i int) {
 		w.Count("cases_parallel_path", 1)
 	}
 	w.Count("queries_evaluated", int64(evaluated))
-	w.Case(core.Digest(t.CSV(), orderBy), n >= 3 && evaluated == 16)
+	w.Case(core.Digest(t.CSV(), orderBy), n >= 3 && evaluated >= 16)
 }
 
 func cutSig(percent, ties, off bool) string {
